@@ -6,7 +6,7 @@ V = os.path.dirname(os.path.dirname(os.path.abspath(__file__)))
 rows = []
 if subprocess.run(['git', '-C', '/repo', 'diff', '--quiet']).returncode != 0:
     sys.exit('/repo has uncommitted changes')
-for d in sorted(glob.glob(os.path.join(V, 'seeded', '*_*'))):
+for d in sorted([d_ for d_ in glob.glob(os.path.join(V, 'seeded', '*_*')) if os.path.isdir(d_)]):
     meta_p = os.path.join(d, 'meta.json')
     meta = json.load(open(meta_p))
     prop = meta['property']
